@@ -376,12 +376,18 @@ def run(r):
         r.broken_obligation("tie:gate", "c20 gate failed", (out + err)[-2000:])
     jobs = []
     for ci, c in enumerate(gcases):
-        labs = "; ".join("(%d%%N, PI %s %s %s)" % (l["id"], l["pur"], str(l["sys"]).lower(), str(l["sendrecv"]).lower()) for l in c["labels"])
+        labl = ["(%d%%N, PI %s %s %s)" % (l["id"], l["pur"], str(l["sys"]).lower(), str(l["sendrecv"]).lower()) for l in c["labels"]]
+        # implementation modifiers the exporter prints as (MOther id ..) are looked up by id as well
+        for m in c["mlabels"]:
+            mm = re.match(r"\(MOther (\d+) ", m["term"])
+            if mm:
+                labl.append("(%s%%N, PI %s false false)" % (mm.group(1), m["pur"]))
+        labs = "; ".join(labl)
         items = ";\n".join("GI %s %s %s %s %s" % (it["node"], str(it["pure"]).lower(), str(it["impure"]).lower(), str(it["mutating"]).lower(),
                                                  str(it["bounded"]).lower()) for it in c["items"])
         mods = "; ".join("(%s, %s)" % (m["term"], m["pur"]) for m in c["mlabels"])
         body = ("Definition tbl%d : list (N * pinfo) := [%s].\nDefinition asm%d : list node := [%s].\n"
-                "Eval vm_compute in (failing_items (gitem_ok (lprim_of tbl%d) (lmod_of tbl%d) asm%d [%s] [%s] 300) 0%%N [\n%s\n],\n"
+                "Eval vm_compute in (failing_items (gitem_ok (lprim_of tbl%d) (lmod_of tbl%d) asm%d [%s] [%s] 6000) 0%%N [\n%s\n],\n"
                 "  forallb (fun mp => purity_eqb (lmod_of tbl%d (fst mp)) (snd mp)) [%s]).\n"
                 % (ci, labs, ci, "; ".join(c["funcs"]), ci, ci, ci, "; ".join(c["fext"]), "; ".join(c["binds"]), items, ci, mods))
         jobs.append(body)
